@@ -14,6 +14,7 @@ from __future__ import annotations
 
 import itertools
 import logging
+import os
 import pickle  # noqa: S403
 import re
 import sys
@@ -383,12 +384,22 @@ def perform_cached_doit(
     h = get_readable_hash(unevaluated_expr)
     filename = cache_directory / f"{h}.pkl"
     if filename.exists():
-        with open(filename, "rb") as f:
-            return pickle.load(f)  # noqa: S301
+        try:
+            with open(filename, "rb") as f:
+                cached_expr, unfolded_expr = pickle.load(f)  # noqa: S301
+        except Exception:  # noqa: BLE001
+            # unreadable (e.g. truncated by an interrupted run) or written in an older format
+            cached_expr = None
+        # the hash is not necessarily unique, so only trust the cache for the same expression
+        if cached_expr == unevaluated_expr:
+            return unfolded_expr
     _LOGGER.warning(
         f"Cached expression file {filename} not found, performing doit()..."
     )
     unfolded_expr = unevaluated_expr.doit()
-    with open(filename, "wb") as f:
-        pickle.dump(unfolded_expr, f)
+    # write to a temporary file first, so that other processes never see a partial file
+    temporary_filename = filename.with_name(f"{filename.name}.{os.getpid()}.tmp")
+    with open(temporary_filename, "wb") as f:
+        pickle.dump((unevaluated_expr, unfolded_expr), f)
+    os.replace(temporary_filename, filename)
     return unfolded_expr
